@@ -198,7 +198,7 @@ func TestVerifC12TCP(t *testing.T) {
 		switch {
 		case c.Conc != "":
 			cc = verifx.C12ConcByName(c.Conc)
-		case c.Peer == "out6":
+		case c.Peer == "out6" || c.Peer == "inCn":
 			cc = nil
 		case c.Peer == "zoneC":
 			cc = ll
